@@ -89,12 +89,16 @@ AInit == /\ regs \in RegSets /\ lines \in LineLists
          /\ opt = [dr |-> FALSE, dl |-> FALSE, merge |-> FALSE, multi |-> FALSE]
          /\ page = <<>> /\ oi = 1 /\ mi = 1 /\ phase = "call"
 Pairs == {rn \in regs \X (1..Len(lines)) : Assign(rn[1], lines[rn[2]]) # {}}
+\* pairs with several longest pieces: the choice among them is left open (one branch per combination)
+TiePairs == {rn \in Pairs : Cardinality(Assign(rn[1], lines[rn[2]])) > 1}
+TheRun(rn) == CHOOSE run \in Assign(rn[1], lines[rn[2]]) : TRUE
 \* every (line, region) candidate pair in turn; id = region id + number of the line in the detected list
 AssignAll == /\ phase = "call"
-             /\ \E f \in [Pairs -> UNION {Assign(rn[1], lines[rn[2]]) : rn \in Pairs}] :
-                  /\ \A rn \in Pairs : f[rn] \in Assign(rn[1], lines[rn[2]])
-                  /\ placed' = {[id |-> <<rn[1].name, rn[2]>>, region |-> rn[1].name, line |-> rn[2],
-                                 x0 |-> PieceX0(lines[rn[2]], f[rn]), x1 |-> PieceX1(lines[rn[2]], f[rn])] : rn \in Pairs}
+             /\ \E f \in [TiePairs -> UNION {Assign(rn[1], lines[rn[2]]) : rn \in TiePairs}] :
+                  /\ \A rn \in TiePairs : f[rn] \in Assign(rn[1], lines[rn[2]])
+                  /\ placed' = {LET run == IF rn \in TiePairs THEN f[rn] ELSE TheRun(rn)
+                                 IN [id |-> <<rn[1].name, rn[2]>>, region |-> rn[1].name, line |-> rn[2],
+                                     x0 |-> PieceX0(lines[rn[2]], run), x1 |-> PieceX1(lines[rn[2]], run)] : rn \in Pairs}
              /\ phase' = "returned"
              /\ UNCHANGED <<regs, lines, opt, page, oi, mi>>
 
